@@ -121,6 +121,10 @@ def check(ctx):
     wf, rf = fold_in(wp, pk[0].args[0]), fold_in(rp, up[0].args[0])
     import struct
     ctx.inst('R3', wp, 'prefix-format', wf == rf and isinstance(wf, str) and struct.calcsize(wf) == 2, 'length prefix format writer %r reader %r' % (wf, rf))
+    # the other end of the socket is the ESP32 on the AI deck, which reads the prefix as a little-endian uint16 (native order of the
+    # hosts the library runs on): a pair of big-endian formats agrees with itself and with nothing else
+    for f_, fmt_ in ((wp, wf), (rp, rf)):
+        ctx.inst('R3', f_, 'prefix-byte-order', isinstance(fmt_, str) and fmt_[:1] not in ('!', '>'), 'length prefix must be little-endian (native / < / =); format %r' % (fmt_,))
     pv = wp.params[1]
     ctx.inst('R3', wp, 'prefix-value', norm(pk[0].args[1]) == '%s.length + 2' % pv, 'prefix = payload length + 2 header bytes; found %s' % norm(pk[0].args[1]))
     body = [norm(s) for s in effective(wp.node.body)]
